@@ -67,6 +67,7 @@ type Contract struct {
 	Opaque   bool // module function deliberately treated as extern (body outside the subset)
 	Split    []*SExpr // interface-valued expressions: every post is proved once per dynamic type
 	SplitTxt []string
+	Functional string // "functional NAME": the result is a function NAME(args) of the arguments (slices: content and length)
 	NoFrame  bool     // "modifies anything": top-level actor closures, no frame obligations (such a function cannot be called from a function under contract)
 	SplitRet bool     // prove every postcondition separately per return statement
 	Safety   []string // properties under which safe.*/nofatal/nopanic obligations are generated (default: all)
@@ -133,7 +134,7 @@ var clauseKeywords = map[string]bool{
 	"func": true, "extern": true, "pure": true, "ghost": true, "props": true, "requires": true, "ensures": true,
 	"modifies": true, "loop": true, "invariant": true, "decreases": true, "nofatal": true, "overflow": true,
 	"let": true, "trusted": true, "returns": true, "fatal": true, "assume": true, "callback": true,
-	"lemma": true, "sentinel": true, "iface": true, "share": true, "effectfree": true, "opaque": true, "end": true, "ghostdo": true, "ghostret": true, "atcall": true, "split": true, "safety": true, "splitreturns": true,
+	"lemma": true, "sentinel": true, "iface": true, "share": true, "effectfree": true, "opaque": true, "end": true, "ghostdo": true, "ghostret": true, "atcall": true, "split": true, "safety": true, "splitreturns": true, "functional": true,
 }
 
 var labelRe = regexp.MustCompile(`^(requires|ensures|invariant|assume)\[([^\]]*)\]\s*(.*)$`)
@@ -460,6 +461,11 @@ func (cs *Contracts) parseFile(p *Program, pkgPath, file, src string) error {
 			}
 			cur.Split = append(cur.Split, x)
 			cur.SplitTxt = append(cur.SplitTxt, strings.TrimSpace(rc.text))
+		case "functional":
+			if cur != nil {
+				cur.Functional = strings.TrimSpace(rc.text)
+				cs.TrustScan = append(cs.TrustScan, fmt.Sprintf("%s:%d: functional %s: %s is a deterministic function of its arguments", filepath.Base(filepath.Dir(file)), rc.line, cur.Functional, cur.RawName))
+			}
 		case "splitreturns":
 			if cur != nil {
 				cur.SplitRet = true
